@@ -280,6 +280,9 @@ def derived_twins(o):
         elif is_meshtype(o):
             out += [o.rotate().rotate(3), o.inverse().inverse(), o.complement().complement(), o.shade(), MeshPatt(o.pattern, list(o.shading)),
                     MeshPatt(Perm(list(o.pattern)), sorted(o.shading, reverse=True)), MeshPatt.unrank(o.pattern, MeshPatt(o.pattern, o.shading).rank())]
+            if o.shading:
+                c = sorted(o.shading)[0]
+                out += [o.shade(c), o.shade(c, c), o.shade(*sorted(o.shading, reverse=True)), o.shade(c).shade(c)]
             if isinstance(o, BivincularPatt):
                 ai, av = o.get_adjacent_requirements()
                 out.append(BivincularPatt(o.pattern, ai, av))
@@ -346,6 +349,7 @@ def plan(tier, seed):
     parts = 16
     specs = [{"name": f"pairs-{i}", "kind": "pairs", "part": i, "parts": parts, "sample": 100000} for i in range(parts)]
     specs += [{"name": f"triples-{i}", "kind": "triples", "part": i, "parts": 4} for i in range(4)]
+    specs.append({"name": "long-perms", "kind": "long"})
     specs += [{"name": f"churn-{i}", "kind": "churn", "part": i, "parts": 8, "churns": 50 if tier == "quick" else 500} for i in range(8)]
     return specs
 
@@ -367,6 +371,25 @@ def run(ctx, spec):
             chk_derived(ctx, encx(a))
         ctx.note(f"universe of {len(U)} values; each paired with every value of length <= 1, every basis, its own twin and {spec['sample']} sampled others (second operand a distinct equal-valued object)")
         ctx.sample({"pair": [encx(U[spec["part"]]), encx(U2[-spec["part"] - 1])]})
+    elif spec["kind"] == "long":
+        # lengths around CPython's small-integer cache and well beyond anything enumerated
+        for n in (9, 15, 255, 256, 257, 258, 300, 1000):
+            base = list(range(n))
+            ps = []
+            for _ in range(6):
+                q = base[:]
+                for _ in range(rng.choice([0, 1, 3])):
+                    i, j = rng.sample(range(n), 2)
+                    q[i], q[j] = q[j], q[i]
+                ps.append(Perm(q))
+            ps.append(Perm(rng.sample(range(n), n)))
+            ps.append(Perm(base[:-1]))
+            for a in ps:
+                for b in ps:
+                    _pair(a, Perm(list(b)))
+            for _ in range(20):
+                _triple(*[rng.choice(ps) for _ in range(3)])
+        ctx.count("long.perm_lengths", 8)
     elif spec["kind"] == "triples":
         meshes = [o for o in U if is_meshtype(o)]
         perms = [o for o in U if isinstance(o, Perm)]
